@@ -484,6 +484,29 @@ Section BlockHomog.
     destruct Hin as ([Hkw Hkh] & _ & _). unfold block_node_inner_size.
     split; cbn [s_w s_h]; apply rel_o_maybe_sub_f; try assumption; [apply rel_h_sum | apply rel_v_sum]; assumption.
   Qed.
+  Lemma rel_combine {A B} (RA : A -> A -> Prop) (RB : B -> B -> Prop) l l' m m' :
+    Forall2 RA l l' -> Forall2 RB m m' -> Forall2 (fun p p' => RA (fst p) (fst p') /\ RB (snd p) (snd p')) (combine l m) (combine l' m').
+  Proof.
+    intros Hl. revert m m'. induction Hl; intros m m' Hm; cbn [combine]; [constructor|].
+    destruct Hm; constructor; [split; assumption | apply IHHl; assumption].
+  Qed.
+
+  Theorem block_container_homog st st' inp inp' w w' styles styles' outs outs' :
+    bstyle_rel k st st' -> binput_rel k inp inp' -> L w w' -> Forall2 (bstyle_rel k) styles styles' -> Forall2 (bout_rel k) outs outs' ->
+    let r := block_container st inp w styles outs in
+    let r' := block_container st' inp' w' styles' outs' in
+    binflow_rel k (fst (fst (fst r))) (fst (fst (fst r'))) /\ L (snd (fst (fst r))) (snd (fst (fst r'))) /\
+    bms_rel k (fst (snd (fst r))) (fst (snd (fst r'))) /\ bms_rel k (snd (snd (fst r))) (snd (snd (fst r'))) /\
+    snd r' = snd r.
+  Proof.
+    intros Hst Hin Hw Hsts Houts. unfold block_container. cbv zeta. cbn [fst snd].
+    pose proof (generate_item_list_homog _ _ _ _ Hsts (block_node_inner_size_homog _ _ _ _ Hst Hin)) as Hitems.
+    pose proof (block_inflow_homog _ _ _ _ (block_params_homog _ _ _ _ _ _ Hst Hin Hw) (rel_combine _ _ _ _ _ _ Hitems Houts)) as Hio.
+    pose proof Hio as (Hres & _ & Hh & _).
+    split; [exact Hio|]. split; [apply block_outer_height_homog; assumption|].
+    split; [apply block_output_margins_homog; assumption|]. split; [apply block_output_margins_homog; assumption|].
+    apply block_can_collapse_through_invariant; assumption.
+  Qed.
 End BlockHomog.
 
 (* ------------------------------------------------------------------------------------------------------------ *)
@@ -533,3 +556,5 @@ Proof.
 Qed.
 Lemma bstyles_rel_scale k l : Forall2 (bstyle_rel k) l (map (bstyle_scale k) l).
 Proof. apply Forall2_self. apply bstyle_rel_scale. Qed.
+Lemma bouts_rel_scale k l : Forall2 (bout_rel k) l (map (bout_scale k) l).
+Proof. apply Forall2_self. apply bout_rel_scale. Qed.
